@@ -292,8 +292,7 @@ class TorState(object):
             kw['dirport'],
         )
         router.flags = kw.get('flags', [])
-        if 'bandwidth' in kw:
-            router.bandwidth = kw['bandwidth']
+        router.bandwidth = kw.get('bandwidth', 0)
         router.ip_v6 = list(kw.get('ip_v6', []))
 
         if 'guard' in router.flags:
